@@ -1,5 +1,6 @@
 """C11 — fit_curve is the L2-orthogonal projection (with optional exact interpolation)."""
 from common import *  # noqa: F401,F403
+import math
 
 RULE = ("random target spaces S (degree 0..3, non-uniform knots, repeated knots) and source spline curves C (degree 0..3, other knot vectors, "
         "scalar/vector points) on the same interval; C inside S (S refines C's space); interpolation node sets (subsets of S's knots, <= npts).  "
@@ -86,6 +87,25 @@ def run_case(ctx, case):
                 return
         if err != worst / 2:
             rec.violation("returned error is not half the integral of the squared residual", case, error=str(err), integral=str(worst))
+    # the float code path (numpy solves, Chebyshev quadrature) on the same data: the same projection up to rounding
+    srcf = float_twin(U, P, None)
+    dstf = Curve([float(x) for x in S])
+    rf_ = impl(lambda: dstf.fit_curve(srcf) if nodes is None else dstf.fit_curve(srcf, [float(z) for z in nodes]))
+    l3(rec, "float-path-vs-exact")
+    if rf_[0] != "ok":
+        rec.violation("fit_curve raised on float data", case, observed=rf_[1])
+    else:
+        Df = curve_state(dstf)
+        scale = max([F(1)] + [abs(x) for q in D[1] for x in q])
+        dev = max([abs(x - y) for q1, q2 in zip(Df[1], D[1]) for x, y in zip(q1, q2)] + [F(0)])
+        errf = frac(rf_[1]) if not isinstance(rf_[1], np.ndarray) else frac(rf_[1].item())
+        deve = abs(errf - err)
+        rec.dist.setdefault("floatdev", {})
+        key = "1e-%d" % min(16, max(0, int(-math.log10(float(dev / scale) + 1e-17))))
+        rec.count("floatdev", key)
+        if dev > F(1, 10**6) * scale or deve > F(1, 10**6) * max(F(1), scale * scale):
+            rec.violation("fit_curve on float data is not the same projection as on exact data", case,
+                          deviation=str(float(dev)), error_float=str(float(errf)), error_exact=str(float(err)))
     inS = (c.get("label") == "inside")
     if inS:
         v = drv.call("rf.eq", *curve_args(*s0), *curve_args(*D))
